@@ -1,8 +1,8 @@
 package h
 
 import (
-	v1ddb "github.com/aws/aws-sdk-go/service/dynamodb"
 	v2types "github.com/aws/aws-sdk-go-v2/service/dynamodb/types"
+	v1ddb "github.com/aws/aws-sdk-go/service/dynamodb"
 )
 
 // ---- SDK v1 ----
